@@ -147,6 +147,22 @@ MUTANTS = [
     ("hopt_border_without_guard", "checkpoint_schedules/hrevolve_sequences/hrevolve.py",
      "        if lmax == 0:\n            continue\n", "",
      ["seq.hrevolve.get_hopt_table"], "loop[2]"),
+    ("haux_disk_read_as_ram_read", "checkpoint_schedules/hrevolve_sequences/hrevolve.py",
+     'sequence.insert(operation("Read", [K, 0]))\n        sequence.insert_sequence(\n            hrevolve_aux(jmin - 1, K, cmem',
+     'sequence.insert(operation("Read", [0, 0]))\n        sequence.insert_sequence(\n            hrevolve_aux(jmin - 1, K, cmem',
+     ["seq.hrevolve.hrevolve_aux"], "makespan_level_1"),
+    ("haux_slot_not_consumed", "checkpoint_schedules/hrevolve_sequences/hrevolve.py",
+     "hrevolve_recurse(l - jmin, K, cmem - 1, cvect, wvect, rvect,",
+     "hrevolve_recurse(l - jmin, K, cmem, cvect, wvect, rvect,",
+     ["seq.hrevolve.hrevolve_aux"], "makespan_level_1"),
+    ("hrecurse_comparison_flipped", "checkpoint_schedules/hrevolve_sequences/hrevolve.py",
+     "if wvect[K] + hoptp[K][l][cmem] < hopt[K-1][l][cvect[K-1]]:",
+     "if wvect[K] + hoptp[K][l][cmem] > hopt[K-1][l][cvect[K-1]]:",
+     ["seq.hrevolve.hrevolve_recurse"], "makespan_level_1"),
+    ("hrecurse_disk_write_dropped", "checkpoint_schedules/hrevolve_sequences/hrevolve.py",
+     'sequence.insert(operation("Write", [K, 0]))\n        sequence.insert_sequence(\n            hrevolve_aux(l, K, cmem',
+     'sequence.insert(operation("Write", [0, 0]))\n        sequence.insert_sequence(\n            hrevolve_aux(l, K, cmem',
+     ["seq.hrevolve.hrevolve_recurse"], "makespan_level_1"),
 ]
 
 
